@@ -303,6 +303,59 @@ def lin_family_loopjump():
     return out
 
 
+def lin_family_loopbody():
+    """Exhaustive family: a resource declared BEFORE a loop is invalidated inside the loop body, a conditional
+    break / continue follows the invalidation, and the body definitely ends in return / panic; after the loop the
+    resource is used, destroyed or left alone. Body prefixes: every sequence of length <= 3 over {invalidate,
+    if c {break}, if c {continue}} with exactly one invalidation and a jump after it; invalidation by destroy /
+    function argument / append into an array; while and for-in; nesting depth 1, and depth 2 (the body sits in an
+    inner loop of an outer loop, optionally followed by `if c {break}` in the outer body)."""
+    out = []
+    jb = lambda t: {"t": "if", "then": [{"t": t}], "else": [], "noelse": True}
+    prefixes = []
+    for n in (2, 3):
+        for seq in itertools.product(("inv", "break", "continue"), repeat=n):
+            if seq.count("inv") == 1 and any(x != "inv" for x in seq[seq.index("inv") + 1:]):
+                prefixes.append(seq)
+    for loop in ("while", "for"):
+        for inv in ("destroy", "consume", "append"):
+            arr = inv == "append"
+            for seq in prefixes:
+                for ender in ("return", "panic"):
+                    body = []
+                    for x in seq:
+                        if x != "inv":
+                            body.append(jb(x))
+                        elif inv == "append":
+                            body.append({"t": "append", "x": "a1", "y": "v0"})
+                        else:
+                            body.append({"t": inv, "x": "v0", "k": "r"})
+                    if ender == "return":
+                        if arr:
+                            body.append({"t": "destroy", "x": "a1", "k": "a"})
+                        body.append({"t": "return", "x": "", "ret": False})
+                    else:
+                        body.append({"t": "panic"})
+                    for depth, tail in ((1, None), (2, False), (2, True)):
+                        for after in ("use", "destroy", "none"):
+                            b = copy.deepcopy(body)
+                            lp = {"t": loop, "body": b}
+                            if depth == 2:
+                                lp = {"t": loop, "body": [lp] + ([jb("break")] if tail else [])}
+                            prog = [{"t": "decl", "x": "v0", "k": "r"}]
+                            if arr:
+                                prog.append({"t": "decl", "x": "a1", "k": "a"})
+                            prog.append(lp)
+                            if after == "use":
+                                prog.append({"t": "use", "x": "v0", "k": "r", "form": "call"})
+                            elif after == "destroy":
+                                prog.append({"t": "destroy", "x": "v0", "k": "r"})
+                            if arr:
+                                prog.append({"t": "destroy", "x": "a1", "k": "a"})
+                            out.append(prog)
+    return out
+
+
 def _vary(body, rng):
     """Semantics-preserving syntactic variation (same statement in the model, other checker code path)."""
     def f(s):
@@ -743,7 +796,7 @@ def check_C03(ctx):
         extra = lin_enumerate(6, 2, {"move"})
         nextra, nrand, batch = 40000, 90000, 20000
     nsys_exh = len(sysm)
-    family = lin_family_loopjump()
+    family = lin_family_loopjump() + lin_family_loopbody()
     seen = set(json.dumps(b, sort_keys=True) for b in sysm)
     extra = [b for b in extra if json.dumps(b, sort_keys=True) not in seen]
     rng.shuffle(extra)
@@ -755,7 +808,7 @@ def check_C03(ctx):
     for pr in progs[:len(sysm)]:
         if not lin_wellformed(pr):
             raise Infra("C03 enumerator produced an ill-formed program: %s" % json.dumps(pr))
-    ctx.log("programs: %d systematic (%d = every program up to the exhaustive bound, %d = in-loop declaration x branch jump family) + %d random (%s)"
+    ctx.log("programs: %d systematic (%d = every program up to the exhaustive bound, %d = loop-jump and loop-body families) + %d random (%s)"
             % (len(sysm), nsys_exh, len(family), len(rnd), mix))
 
     # ---- pass 1: exact oracle (TLC) and real checker on every program, batch by batch
